@@ -109,6 +109,10 @@ def observe(args):
             g = d.grad(S[v], **kw)
             rec[mode + "_terms"] = len(g.terms)
             rec[mode] = eval_at(g, pt, mode == "mixed")
+            if not g.terms:
+                # the empty sum depends on nothing: its own gradient is the empty sum again (second derivatives)
+                g2 = g.grad(S[v], **kw)
+                rec[mode + "_again"] = len(g2.terms) if hasattr(g2, "terms") else -2
         except NotImplementedError:
             rec[mode + "_exc"] = "NotImplementedError"
         except Exception as e:
@@ -146,6 +150,8 @@ def judge(o, e):
         return "mixed-gradient-raised"
     if not e["depends"] and o["mixed_terms"] != 0:
         return "gradient-of-independent-diagram-is-not-the-empty-sum"
+    if o.get("mixed_again", 0) != 0 or o.get("pure_again", 0) != 0:
+        return "gradient-of-the-empty-sum-is-not-the-empty-sum"
     if not cmp(e["mg"]["A"], e["mg"]["B"], o["mixed"]):
         return "mixed-gradient-is-not-the-derivative-of-the-classical-quantum-map"
     # jacobians stack the gradients in the order of the variables
